@@ -601,13 +601,16 @@ def _run_hostile(ctx, p):
                         at.get_shell_grid(i)
                         at.get_shell_grid(i, r_sq=False)
                     mon.check_clones(ctx, at, roundtrip.pick(rng, 1), tag=subj)
-    # numpy-integer seed: __init__ admits it, the generator rejects it (recorded, not decided)
+    # numpy-integer seeds (admitted by __init__; the generator rejected them before the fix recorded in known_findings.json):
+    # the grid must be the one of the equal Python integer
     rg = confs[0][1]
-    try:
-        AtomGrid(rg, [5], rotate=np.int64(3), method=method)
-        ctx.count("numpy-integer-seed-accepted")
-    except ValueError as exc:
-        ctx.observe("rotate given as numpy integer passes __init__'s type check but is rejected with ValueError by the generator", error=str(exc)[:80])
+    for form in (np.int64, np.int32, np.uint8):
+        seed = int(rng.integers(1, 200))
+        subj = f"{method}:rot:seed-as-{form.__name__}"
+        with ctx.guard("rotation-reproducible-from-seed", subj):
+            a, b = AtomGrid(rg, [5], rotate=form(seed), method=method), AtomGrid(rg, [5], rotate=seed, method=method)
+            ctx.check("rotation-reproducible-from-seed", subj, np.array_equal(a.points, b.points) and np.array_equal(a.weights, b.weights) and np.array_equal(a.get_shell_grid(rg.size - 1).points, b.get_shell_grid(rg.size - 1).points), sig="numpy-integer-seed-differs-from-python-integer-seed")
+            ctx.hit("numpy-integer-seed")
     # seeds just outside the documented range are rejected
     for bad in (-1, 2**32 - rg.size):
         try:
